@@ -6,6 +6,7 @@ package zzvf
 
 import (
 	"bytes"
+	"reflect"
 	"encoding/hex"
 	"encoding/json"
 	"fmt"
@@ -230,4 +231,33 @@ func Tier() int {
 		return 1
 	}
 	return 0
+}
+
+// Havoc fills *ptr with an arbitrary value of its type (engine only; natively a no-op).
+func Havoc(ptr any, name string) { havocNative(reflect.ValueOf(ptr), 0) }
+
+// OpaqueBytes stands for an encoded document whose bytes are not modelled.
+func OpaqueBytes(kind string) []byte { return []byte(kind) }
+
+// havocNative: natively an "arbitrary value" is the zero value with every pointer allocated (so that code that
+// relies on the backend contract "outputs are non-nil" behaves as under the engine).
+func havocNative(v reflect.Value, depth int) {
+	if depth > 6 {
+		return
+	}
+	switch v.Kind() {
+	case reflect.Ptr:
+		if v.IsNil() && v.CanSet() {
+			v.Set(reflect.New(v.Type().Elem()))
+		}
+		if !v.IsNil() {
+			havocNative(v.Elem(), depth+1)
+		}
+	case reflect.Struct:
+		for i := 0; i < v.NumField(); i++ {
+			if v.Type().Field(i).IsExported() {
+				havocNative(v.Field(i), depth+1)
+			}
+		}
+	}
 }
